@@ -290,6 +290,27 @@ func runC10(r *Report, rng *rand.Rand, thorough bool) {
 						allOf = append(allOf, m.jsonSchema())
 					}
 				}
+				// nesting: the first two entries become one member that is itself an allOf (by reference or inline);
+				// allOf is transitive, so the merged type is the same
+				nest := "flat"
+				if len(allOf) >= 2 {
+					switch i % 3 {
+					case 1:
+						nest = "nested-ref"
+						comps["Nest"] = map[string]any{"allOf": []any{allOf[0], allOf[1]}}
+						allOf = append([]any{map[string]any{"$ref": "#/components/schemas/Nest"}}, allOf[2:]...)
+						if len(allOf) == 1 { // keep two members at the top level: the nested one and an empty object
+							allOf = append(allOf, map[string]any{"type": "object"})
+						}
+					case 2:
+						nest = "nested-inline"
+						allOf = append([]any{map[string]any{"allOf": []any{allOf[0], allOf[1]}}}, allOf[2:]...)
+						if len(allOf) == 1 {
+							allOf = append([]any{map[string]any{"type": "object"}}, allOf...)
+						}
+					}
+				}
+				r.Dist["allof="+nest]++
 				comps["Merged"] = map[string]any{"allOf": allOf}
 				spec, _ := json.Marshal(map[string]any{"openapi": "3.0.3", "info": map[string]any{"title": "m", "version": "1"}, "paths": map[string]any{}, "components": map[string]any{"schemas": comps}})
 				cfg := codegen.Configuration{PackageName: "gen", Generate: codegen.GenerateOptions{Models: true}}
@@ -420,5 +441,5 @@ func runC10(r *Report, rng *rand.Rand, thorough bool) {
 			r.Violate(w.sig, msg, map[string]any{"spec": json.RawMessage(w.spec)})
 		}
 	}
-	r.Rule = "hook level: pairs of schemas over type {absent, object, string} x format x required x properties (4 names, 2 value types) x additionalProperties {absent, true, false, schema s, schema i} x nullable through mergeOpenapiSchemas vs the model (result or rejection) and vs the statement; end to end: allOf lists of 1-3 compatible members (alternately $ref and inline, overlapping identical properties, additionalProperties true/false/schema) in EVERY permutation x old/new merge mode through codegen.Generate, struct fields (names, pointer-ness from required, additional-properties type) vs the union of the members and equal across permutations; the two refuted clauses replayed; non-trivial = at least two members / a successful merge"
+	r.Rule = "hook level: pairs of schemas over type {absent, object, string} x format x required x properties (4 names, 2 value types) x additionalProperties {absent, true, false, schema s, schema i} x nullable through mergeOpenapiSchemas vs the model (result or rejection) and vs the statement; end to end: allOf lists of 1-3 compatible members (alternately $ref and inline, overlapping identical properties, additionalProperties true/false/schema) in EVERY permutation x {flat, first two members nested by reference, nested inline} x old/new merge mode through codegen.Generate, struct fields (names, pointer-ness from required, additional-properties type) vs the union of the members and equal across permutations; the two refuted clauses replayed; non-trivial = at least two members / a successful merge"
 }
